@@ -11,6 +11,10 @@ from .replay import replay_refuted, write_replay_file
 
 HERE = M.HERE
 EVID = os.path.join(HERE, 'evidence')
+if os.environ.get('PYVC_REPO') and os.path.realpath(os.environ['PYVC_REPO']) != '/repo':
+    # a run against another tree (seeded change in a scratch worktree): its evidence is kept apart from the
+    # evidence of the registered tree
+    EVID = os.path.join(HERE, 'replay', 'out', 'evidence-other-tree')
 
 
 def load_json(path, default):
